@@ -42,6 +42,8 @@ RULE = ("(a) lifecycle: application trees (root + up to 4 sub-applications, nest
         "then random tables; thorough adds all fail assignments of small shapes. distinct by table+entry; non-trivial when "
         "at least one context exists. " + RULE_DRAIN)
 TRUSTED_BASE = [
+    "drain scenarios in which the client disconnects (connection_lost from the peer) are judged by the direct oracle only; the Lean drain model has no such label",
+    "listening sockets: the sites are real BaseSite objects registered with the real runner, only the asyncio.Server they own is an in-memory stand-in that records close()",
     "aiosignal.Signal.send (receivers awaited in list order, first exception propagates) and frozenlist are modelled, not verified",
     "contextlib.asynccontextmanager / async generators: __aenter__ runs the code before the single yield, __aexit__(None,None,None) the code after it (exercised by the harness with generator, decorator and class based contexts)",
     "a nested Signal.send is represented by the flattened receiver chain computed by Aio.C20.chain from the application table",
@@ -268,11 +270,26 @@ class _BadSock:
         raise SiteFail()
 
 
-async def run_entry(entry, table, susp=0):
+HANG_AFTER = 5000.0     # virtual seconds after which a lifecycle call that has not returned counts as hanging
+
+
+async def run_entry_guarded(entry, table, susp=0):
+    """run_entry under a (virtual-time) budget: a life whose setup()/cleanup()/_run_app never returns ends as
+    (log so far, ["HANG"]) instead of stalling the whole batch"""
+    box = {}
+    try:
+        return await asyncio.wait_for(run_entry(entry, table, susp, box), HANG_AFTER)
+    except asyncio.TimeoutError:
+        return list(box.get("log", [])), ["HANG"]
+
+
+async def run_entry(entry, table, susp=0, box=None):
     """-> (log, [canonical outcome…]) of one life of the real application; the log is read after the loop has run on
     for 100 more virtual seconds (whatever was left running by the life has finished by then)"""
     from aiohttp import web
     log = []
+    if box is not None:
+        box["log"] = log
     hooks = {"reached": asyncio.Event()}
     app = build_app(table, log, susp, hooks)
     kind, arg = entry.split(":")
@@ -304,8 +321,7 @@ def run_real_run_app(table, susp=0):
     from aiohttp.web_runner import GracefulExit
     log = []
     app = build_app(table, log, susp)
-    loop = vloop.VLoop()
-    loop.stop_on_quiescence = False
+    loop = vloop.VLoop()        # stops (instead of blocking in select for ever) when nothing can happen any more
 
     def stop():
         raise GracefulExit()
@@ -313,8 +329,10 @@ def run_real_run_app(table, susp=0):
     try:
         web.run_app(app, sock=[], print=None, loop=loop, handle_signals=False)
         res = "cancelled"      # run_app swallows the cancellation it caused itself
+        if loop.quiescent:
+            res = "HANG"
     except BaseException as e:  # noqa
-        res = canon_exc(e)
+        res = "HANG" if loop.quiescent else canon_exc(e)
     finally:
         asyncio.set_event_loop(None)
         if not loop.is_closed():
@@ -388,6 +406,10 @@ def oracle_life(ctx, case, log, res):
     start-up code completed, in reverse order of start-up.  Judged only for lives in which cleanup was requested."""
     entry = case["entry"]
     kind, arg = entry.split(":")
+    if "HANG" in res:
+        ctx.violation("C20/lifecycle-call-never-returns", case,
+                      f"setup()/cleanup()/_run_app did not return within {HANG_AFTER:.0f} virtual seconds; log so far={log}")
+        return
     if kind == "r" and arg != "SC":
         return
     entered = [e[1:] for e in log if e[0] == "N"]
@@ -691,7 +713,7 @@ def check_life(ctx):
     async def main():
         out = []
         for e, t, sp in cases:
-            out.append(None if e == "R:0" else await run_entry(e, t, sp))
+            out.append(None if e == "R:0" else await run_entry_guarded(e, t, sp))
         return out
     res, excs, q = vloop.run(main)
     if res is None:
@@ -724,7 +746,7 @@ def replay_life(ctx, case):
     if case.get("via") == "run_app":
         log, r = run_real_run_app(t, sp)
     else:
-        (log, r), excs, q = vloop.run(lambda: run_entry(e, t, sp))
+        (log, r), excs, q = vloop.run(lambda: run_entry_guarded(e, t, sp))
     oracle_life(ctx, case, log, r)
 
 
